@@ -675,13 +675,14 @@ def is_len_plus_encoded(fa, op, enc_block, wconst):
     return has_enc and has_len
 
 
-def errprop_rule(ctx, fn_pred, label):
+def errprop_rule(ctx, fn_pred, label, cfgs=("A", "B"), floor=10):
     """Every fallible call (Result of DecodeError / io::Error / VibratoError) in the selected
     functions is consumed by `?` or returned; never dropped, `.ok()`-ed or defaulted."""
     ERR_TYS = ("bincode::error::DecodeError", "std::io::Error", "vibrato::errors::VibratoError",
-               "bincode::error::EncodeError")
+               "bincode::error::EncodeError", "std::num::ParseIntError", "std::num::ParseFloatError",
+               "std::str::Utf8Error", "std::num::TryFromIntError", "std::string::FromUtf8Error")
     n = 0
-    for cfg in ("A", "B"):
+    for cfg in cfgs:
         crate = ctx.facts(cfg).lib
         for p, f in sorted(crate.fns.items()):
             if not f.body or not fn_pred(f):
@@ -706,12 +707,21 @@ def errprop_rule(ctx, fn_pred, label):
                         ups = [strip_generics(x) for x in callee_paths(ut)] if ut["k"] == "call" else []
                         if any("Try::branch" in x for x in ups):
                             ok, how = True, "?"
+                        elif any(x.endswith("Result::unwrap") or x.endswith("Result::expect")
+                                 or x.endswith("Result::unwrap_unchecked") for x in ups):
+                            # not swallowed: a panic site, audited by PANIC
+                            ok, how = True, "unwrap (audited by PANIC)"
                         elif any(x.endswith("Result::map_err") or x.endswith("Result::map")
                                  or x.endswith("Result::and_then") for x in ups):
                             # converted, must then be consumed by ? (checked at that call)
                             ok, how = True, "converted"
                         elif ups:
                             how = ups[0].rsplit("::", 1)[-1]
+                    if not ok:
+                        # matched on: the discriminant of the result is inspected
+                        for bb2, i2, s2 in fa.stmts():
+                            if "rv" in s2 and s2["rv"]["k"] == "discr" and s2["rv"]["place"]["l"] == dest["l"]:
+                                ok, how = True, "match"
                     if not uses:
                         # moved into _0 via assignment?
                         for bb2, i2, s2 in fa.stmts():
@@ -726,7 +736,7 @@ def errprop_rule(ctx, fn_pred, label):
                        "%s: error of %s is swallowed (%s): a truncated or damaged stream would be "
                        "accepted with default/partial data instead of being rejected"
                        % (p, ps[0] if ps else "?", how))
-    ctx.floor("ERRPROP", "fallible calls on the %s path" % label, n, 10)
+    ctx.floor("ERRPROP", "fallible calls on the %s path" % label, n, floor)
 
 
 def uses_of_local(fa, local):
